@@ -374,6 +374,10 @@ package providers
 //@   unchecked typeassert: resp.(*admin.Members) — Breaker.Call hands back what the function literal returned, which is the *admin.Members of req.Do() (the breaker's contract is stated over an opaque function value)
 //@   ensures [C17] a_page_that_could_not_be_fetched_fails_the_listing: called(@Call#1) && @Call#1.1 != nil ==> result.1 != nil && result.0 == nil
 //@   ensures [C17] a_nested_group_that_could_not_be_expanded_fails_the_listing: called(@listMemberships#1) && @listMemberships#1.1 != nil ==> result.1 != nil && result.0 == nil
+// "no such group" is the one error on which the cache drops the list it had: it is said only when the directory
+// answered 404 for this group (or for a nested group, passed up unchanged; or the request itself failed with that very
+// error value, passed up unchanged); every other failure keeps the old list
+//@   ensures [C17] not_found_only_when_the_directory_says_404: result.1 == groups.ErrGroupNotFound ==> (called(@listMemberships#1) && @listMemberships#1.1 == groups.ErrGroupNotFound) || (called(@Call#1) && @Call#1.1 != nil && (result.1 == @Call#1.1 || (typeis(@Call#1.1, "*google.golang.org/api/googleapi.Error") && local("e").Code == 404)))
 //@   loop 1
 //@     invariant no_page_was_skipped: !called(@Call#1) || @Call#1.1 == nil
 //@     invariant no_nested_group_was_skipped: !called(@listMemberships#1) || @listMemberships#1.1 == nil
